@@ -184,6 +184,9 @@ func c11CheckPair0(x1, x2 []float64, cache *distCache) (string, string) {
 	tu := twoU(x1, x2)
 	allEqual := len(tieVector(x1, x2)) == 1
 	var ps [3]float64
+	// A failure of the two-sided clause does not end the case: the one-sided
+	// clauses are still checked and reported first.
+	twoMsg := ""
 	for ai, alt := range []LocationHypothesis{LocationLess, LocationDiffers, LocationGreater} {
 		r, err := MannWhitneyUTest(x1, x2, alt)
 		if allEqual {
@@ -211,13 +214,22 @@ func c11CheckPair0(x1, x2 []float64, cache *distCache) (string, string) {
 		default:
 			want = math.Min(1, 2*math.Min(less, greater))
 		}
-		if !closeTo(r.P, want) {
-			return fmt.Sprintf("U-test(%v,%v,alt=%v): p=%v, exact permutation value %v (U=%v, P(U<=u)=%v, P(U>=u)=%v)", x1, x2, alt, r.P, want, r.U, less, greater), altClause(alt)
-		}
-		if r.P < 0 || r.P > 1+c11Tol {
-			return fmt.Sprintf("U-test(%v,%v,%v): p=%v outside [0,1]", x1, x2, alt, r.P), altClause(alt)
-		}
 		ps[ai] = r.P
+		var m string
+		if !closeTo(r.P, want) {
+			m = fmt.Sprintf("U-test(%v,%v,alt=%v): p=%v, exact permutation value %v (U=%v, P(U<=u)=%v, P(U>=u)=%v)", x1, x2, alt, r.P, want, r.U, less, greater)
+		} else if r.P < -c11Tol || (alt == LocationDiffers && r.P < 0) || r.P > 1+c11Tol {
+			// one-sided values are 1 - CDF(...) in floating point: an exact tail of 1/C(49,24) may come out as
+			// -5e-15, which is the exact value within the tolerance used throughout; the two-sided value, which the
+			// property places in [0,1], is held to the interval strictly
+			m = fmt.Sprintf("U-test(%v,%v,%v): p=%v outside [0,1]", x1, x2, alt, r.P)
+		}
+		if m != "" {
+			if alt != LocationDiffers {
+				return m, altClause(alt)
+			}
+			twoMsg = m
+		}
 	}
 	if allEqual {
 		return "", ""
@@ -229,8 +241,17 @@ func c11CheckPair0(x1, x2 []float64, cache *distCache) (string, string) {
 			return fmt.Sprintf("swapped U(%v,%v): %v", x2, x1, err), "error-cases"
 		}
 		if !closeTo(r.P, ps[ai]) {
-			return fmt.Sprintf("U-test(%v,%v): swapping the samples changes p from %v to %v (alt %v)", x1, x2, ps[ai], r.P, alt), altClause(alt)
+			m := fmt.Sprintf("U-test(%v,%v): swapping the samples changes p from %v to %v (alt %v)", x1, x2, ps[ai], r.P, alt)
+			if alt != LocationDiffers {
+				return m, altClause(alt)
+			}
+			if twoMsg == "" {
+				twoMsg = m
+			}
 		}
+	}
+	if twoMsg != "" {
+		return twoMsg, "two-sided"
 	}
 	return "", ""
 }
@@ -638,6 +659,7 @@ func TestVerifC11(t *testing.T) {
 	c11Pairs(c, mc.Pick(c, 5, 6), mc.Pick(c, 10, 12))
 	c11Untied(c, mc.Pick(c, 7, 7))
 	c11Approx(c)
+	c11Limit(c)
 	if !c.Sweep() {
 		c11BigTies(c, mc.Pick(c, 16, 20))
 	}
